@@ -272,8 +272,12 @@ class DepSet(boolean.AndRestriction, caching=False):
     def __str__(self):
         return stringify_boolean(self)
 
-    # parent __hash__() isn't inherited when __eq__() is defined in the child class
-    __hash__ = boolean.AndRestriction.__hash__
+    # parent __hash__() isn't inherited when __eq__() is defined in the child class;
+    # __eq__ ignores order and repetition of the members, so must the hash
+    def __hash__(self):
+        if not isinstance(self.restrictions, tuple):
+            raise TypeError(f"{self!r} isn't finalized")
+        return hash(frozenset(self.restrictions))
 
     def __eq__(self, other):
         if isinstance(other, DepSet):
